@@ -1,7 +1,10 @@
 // Conformance driver for spec/cgmap (C01): executes text commands against the real
 // coarse-graining entry points and prints what it observes.
 //   top <nmol> <n> m1 .. mn       atomistic Topology: nmol molecules "M" with atoms A1..An
-//   map <file.xml>                CGEngine::LoadMoleculeType + CreateCGTopology
+//   topx <nmol> {<name> <n> m1 .. mn}*   atomistic Topology with molecules of several types
+//   map <file.xml[;file2.xml]> [<pattern>]   CGEngine::LoadMoleculeType (';'-separated list), optional
+//                                 CGEngine::AddIgnore(pattern), CreateCGTopology
+//   remap                         a second CG topology + map created by the SAME CGEngine
 //   frame b00 .. b22  then per atom (molecule by molecule):
 //         hp x y z hv vx vy vz hf fx fy fz
 //                                 Topology::setBox(matrix) (auto type), bead data, TopologyMap::Apply()
@@ -71,15 +74,46 @@ int main() {
           }
         }
         std::cout << "ok " << top->BeadCount() << std::endl;
+      } else if (cmd == "topx") {
+        long nmol;
+        in >> nmol;
+        tmap.reset();
+        engine.reset();
+        cgtop.reset();
+        top.reset(new Topology());
+        top->RegisterBeadType("T");
+        for (long k = 0; k < nmol; ++k) {
+          std::string mname;
+          long n;
+          in >> mname >> n;
+          const Residue &res = top->CreateResidue("R");
+          Molecule *mol = top->CreateMolecule(mname);
+          for (long i = 0; i < n; ++i) {
+            double m;
+            in >> m;
+            std::string name = "A" + std::to_string(i + 1);
+            Bead *b = top->CreateBead(Bead::spherical, name, "T", res.getId(), m, 0.0);
+            mol->AddBead(b, name);
+          }
+        }
+        if (!in) throw std::runtime_error("driver: short topx line");
+        std::cout << "ok " << top->BeadCount() << std::endl;
       } else if (cmd == "map") {
-        std::string file;
-        in >> file;
+        std::string file, ignore;
+        in >> file >> ignore;
         tmap.reset();
         cgtop.reset(new Topology());
         engine.reset(new CGEngine());
         engine->LoadMoleculeType(file);
+        if (!ignore.empty()) engine->AddIgnore(ignore);
         tmap = engine->CreateCGTopology(*top, *cgtop);
-        std::cout << "ok " << cgtop->BeadCount() << std::endl;
+        std::cout << "\nok " << cgtop->BeadCount() << " molecules " << cgtop->MoleculeCount() << std::endl;
+      } else if (cmd == "remap") {
+        if (!engine) throw std::runtime_error("driver: no engine");
+        tmap.reset();
+        cgtop.reset(new Topology());
+        tmap = engine->CreateCGTopology(*top, *cgtop);
+        std::cout << "\nok " << cgtop->BeadCount() << " molecules " << cgtop->MoleculeCount() << std::endl;
       } else if (cmd == "frame") {
         if (!tmap) throw std::runtime_error("driver: no map");
         Eigen::Matrix3d m;
@@ -113,7 +147,11 @@ int main() {
           Eigen::Vector3d f = b->HasF() ? b->getF() : z;
           out << " hp " << b->HasPos() << " " << p[0] << " " << p[1] << " " << p[2];
           out << " hv " << b->HasVel() << " " << v[0] << " " << v[1] << " " << v[2];
-          out << " hf " << b->HasF() << " " << f[0] << " " << f[1] << " " << f[2] << "\n";
+          out << " hf " << b->HasF() << " " << f[0] << " " << f[1] << " " << f[2];
+          bool ell = b->getSymmetry() == Bead::ellipsoidal && b->HasU() && b->HasV() && b->HasW();
+          Eigen::Vector3d eu = ell ? b->getU() : z, ev = ell ? b->getV() : z, ew = ell ? b->getW() : z;
+          out << " uvw " << ell << " " << eu[0] << " " << eu[1] << " " << eu[2] << " " << ev[0] << " " << ev[1] << " "
+              << ev[2] << " " << ew[0] << " " << ew[1] << " " << ew[2] << "\n";
         }
         std::cout << out.str() << "end" << std::endl;
       } else {
